@@ -1,7 +1,7 @@
 #!/bin/sh
 # rebuild the wip copies in dependency order
 cd /verif/coq/wip
-for f in WorldSpec WorldCore WorldSplice WorldRead WorldMore WorldDrain WorldProofs WorldFused OwnHistory; do
+for f in WorldSpec WorldCore WorldSplice WorldRead WorldMore WorldDrain WorldWrong WorldProofs WorldFused OwnHistory; do
   timeout 900 coqc -Q ../AV AV -Q . WIP $f.v 2>&1 | tail -${TAILN:-25} || exit 1
   [ -f $f.vo ] || exit 1
 done
